@@ -261,6 +261,19 @@ pub(crate) fn table() -> Vec<F> {
             call: |a| { let mut o = outs_from(a); let i = a.u() as usize; let s = a.b(); o.set_spent(i, s); format!("ok {}", outs_enc(&o)) } },
         F { key: "Fixture.Outs.all_spent", prop: "FIX", gen: |r| gen_outs(r),
             call: |a| format!("ok {}", outs_from(a).all_spent()) },
+        F { key: "Fixture.ChanId.from_parts", prop: "FIX",
+            gen: |r| { let n = match r.below(4) { 0 => 3, 1 => 5, _ => 4 }; let b = gen_bytes(r, n); format!("{} {}", arg_list(&b), edge64(r)) },
+            call: |a| { let p = bytes_from(a); let o = a.u(); format!("ok {}", l8(&ChanId::from_parts(&p, o).0)) } },
+        F { key: "Fixture.ChanId.oid", prop: "FIX",
+            gen: |r| { let n = match r.below(4) { 0 => 7, 1 => 8, 2 => r.below(7), _ => 12 }; let b = gen_bytes(r, n); arg_list(&b) },
+            call: |a| format!("ok {}", ChanId(bytes_from(a)).oid()) },
+        F { key: "Fixture.ChanId.into_len", prop: "FIX",
+            gen: |r| { let n = r.below(6); let b = gen_bytes(r, n); arg_list(&b) },
+            call: |a| format!("ok {}", ChanId(bytes_from(a)).into_len()) },
+        F { key: "Fixture.Guarded.height_plus", prop: "FIX", gen: |r| format!("{} {}", gen_acc(r), small_or_edge32(r)),
+            call: |a| { let g = Guarded { st: std::sync::Mutex::new(acc_from(a)) }; let d = a.u() as u32; format!("ok {}", g.height_plus(d)) } },
+        F { key: "Fixture.Guarded.total", prop: "FIX", gen: |r| gen_acc(r),
+            call: |a| { let g = Guarded { st: std::sync::Mutex::new(acc_from(a)) }; format!("ok {}", g.total()) } },
         F { key: "Fixture.Holder.mark", prop: "FIX",
             gen: |r| format!("{} {} {} {}", if r.chance(1, 4) { "-".to_string() } else { format!("+ {}", gen_outs(r)) },
                              if r.chance(1, 4) { U32M } else { r.below(9) }, r.below(4), arg_list(&[r.below(3)][..r.below(2) as usize])),
